@@ -19,6 +19,7 @@ import (
 	"google.golang.org/protobuf/reflect/protoreflect"
 	"google.golang.org/protobuf/reflect/protoregistry"
 	"google.golang.org/protobuf/types/descriptorpb"
+	"google.golang.org/protobuf/types/dynamicpb"
 	"google.golang.org/genproto/googleapis/api/annotations"
 
 	"verif/sim/core"
@@ -177,6 +178,66 @@ func init() {
 
 // simBackendFiles holds the backends' (newer) build of the synthetic files.
 var simBackendFiles = &protoregistry.Files{}
+
+// The backends also run a newer build of grpc/testing/messages.proto than the
+// gateway links: the embedded message Payload has one more field, note = 15.
+// The top-level request and reply messages of TestService are what they were,
+// so a gateway that compares a reflected message with its own generated type
+// of the same name only at the top level - and then uses the generated type -
+// cannot carry the field. grpc/testing/test.proto is rebuilt against it.
+func init() {
+	msgs, err := protoregistry.GlobalFiles.FindFileByPath("grpc/testing/messages.proto")
+	if err != nil {
+		panic(err)
+	}
+	fdp := protodesc.ToFileDescriptorProto(msgs)
+	done := false
+	for _, m := range fdp.MessageType {
+		if m.GetName() == "Payload" {
+			m.Field = append(m.Field, &descriptorpb.FieldDescriptorProto{Name: proto.String("note"), JsonName: proto.String("note"), Number: proto.Int32(15),
+				Label: descriptorpb.FieldDescriptorProto_LABEL_OPTIONAL.Enum(), Type: descriptorpb.FieldDescriptorProto_TYPE_STRING.Enum()})
+			done = true
+		}
+	}
+	if !done {
+		panic("sim: grpc.testing.Payload not found")
+	}
+	svc, err := protoregistry.GlobalFiles.FindDescriptorByName(protoreflect.FullName(tsvc))
+	if err != nil {
+		panic(err)
+	}
+	for _, f := range []*descriptorpb.FileDescriptorProto{fdp, protodesc.ToFileDescriptorProto(svc.ParentFile())} {
+		fd, err := protodesc.NewFile(f, chainResolver{simBackendFiles, protoregistry.GlobalFiles})
+		if err != nil {
+			panic(err)
+		}
+		if err := simBackendFiles.RegisterFile(fd); err != nil {
+			panic(err)
+		}
+	}
+}
+
+// backendBuildOf returns m as a message of the backends' build of its type
+// (nil if the backends run the build the harness links).
+func backendBuildOf(m proto.Message) proto.Message {
+	d, err := simBackendFiles.FindDescriptorByName(m.ProtoReflect().Descriptor().FullName())
+	if err != nil {
+		return nil
+	}
+	md, ok := d.(protoreflect.MessageDescriptor)
+	if !ok {
+		return nil
+	}
+	b, err := proto.Marshal(m)
+	if err != nil {
+		panic(err)
+	}
+	dm := dynamicpb.NewMessage(md)
+	if err := proto.Unmarshal(b, dm); err != nil {
+		panic(err)
+	}
+	return dm
+}
 
 type chainResolver struct{ first, then *protoregistry.Files }
 
